@@ -7,8 +7,8 @@ state change, in program order (the simulator is single-threaded).
 import math
 import random
 
-from .book_session import PLURAL_ACCESSORS, SINGLE_ACCESSORS, history_rows, snap_market
-from .common import MachineryError, Units, import_pams
+from .book_session import PLURAL_ACCESSORS, SINGLE_ACCESSORS, current_row, history_rows, snap_market
+from .common import BADPX, NOPX, MachineryError, Units, import_pams
 
 import_pams()
 from pams.agents.base import Agent  # noqa: E402
@@ -164,7 +164,7 @@ def log_key(log, rec):
         return "cancel", ["c", log.market_id, log.order_id, log.cancel_time]
     if isinstance(log, ExecutionLog):
         px = rec.U(log.market_id).u(log.price, soft=True)
-        return "exec", ["e", log.market_id, log.time, log.buy_order_id, log.sell_order_id, log.volume, -1 if px is None else px]
+        return "exec", ["e", log.market_id, log.time, log.buy_order_id, log.sell_order_id, log.volume, BADPX if px is None else px]
     if isinstance(log, ExpirationLog):
         return "expire", ["x", log.market_id, log.order_id]
     if isinstance(log, MarketStepBeginLog):
@@ -264,7 +264,7 @@ class RecLogger(Logger):
 
 def _soft(u, x):
     k = u(x, soft=True)
-    return -1 if k is None else k
+    return BADPX if k is None else k
 
 
 def _lg_count(self, market_id, kind):
@@ -338,7 +338,7 @@ class ProbeMarketMixin:
             pass
         u = self._u()
         mo = order.kind == MARKET_ORDER
-        px = 0 if mo else _soft(u.u, order.price)
+        px = NOPX if mo else _soft(u.u, order.price)
         rq = 0 if (mo or req is None) else _soft(u.u, req)
         REC.emit("acc", m=self.market_id, id=int(order.order_id), a=int(order.agent_id), obj=obj, buy=bool(order.is_buy),
                  mo=mo, px=px, vol=int(order.volume), ttl=int(order.ttl or 0), t=int(order.placed_at), req=rq,
@@ -391,6 +391,10 @@ class ProbeMarketMixin:
         before = {o.order_id: o.volume for o in self.buy_order_book.priority_queue + self.sell_order_book.priority_queue}
         if not first:
             self._sync_running()
+        try:
+            pre = current_row(self, self._intern)
+        except Exception:  # noqa: BLE001 - a getter raised: the snapshot after the step reports it
+            pre = 0
         super()._update_time(next_fundamental_price)
         after = {o.order_id for o in self.buy_order_book.priority_queue + self.sell_order_book.priority_queue}
         gone = sorted([i, v] for i, v in before.items() if i not in after)
@@ -403,7 +407,7 @@ class ProbeMarketMixin:
                                             "tick": self.tick_size}
             REC._lg_take(self.market_id)
         else:
-            e = {"k": "tick", "fund": max(fu, 0), "exp": gone}
+            e = {"k": "tick", "fund": max(fu, 0), "exp": gone, "pre": pre, "nh": False}
             e = self._bev(e)
             e["hist"] = history_rows(self, self._intern)
 
@@ -471,6 +475,8 @@ class ScriptMixin:
             batch = self.forced(self, markets)
         else:
             batch = self._random_batch(markets)
+            if self.p.get("pSpoof", 0.0) > 0 and self.prng.random() < self.p["pSpoof"]:
+                batch = self._spoof(batch, markets)
         summ = []
         for x in batch:
             if isinstance(x, Cancel):
@@ -478,9 +484,24 @@ class ScriptMixin:
             else:
                 u = REC.U(x.market_id).u
                 summ.append(["o", int(x.market_id), bool(x.is_buy), x.kind == MARKET_ORDER,
-                             0 if x.price is None else max(_soft(u, x.price), 0), int(x.volume), int(x.ttl or 0), REC.obj(x)])
+                             0 if x.price is None else max(_soft(u, x.price), 0), int(x.volume), int(x.ttl or 0), REC.obj(x),
+                             int(x.agent_id)])
         REC.emit("ret", a=self.agent_id, hft=hft, t=int(t), batch=summ)
         return batch
+
+    def _spoof(self, batch, markets):
+        """contract breach (negative scenario of C04): an order naming ANOTHER agent, alone or among own orders"""
+        r = self.prng
+        others = [a.agent_id for a in self.simulator.agents if a.agent_id != self.agent_id]
+        acc = [m for m in markets if self.is_market_accessible(m.market_id)]
+        if not others or not acc:
+            return batch
+        m = r.choice(acc)
+        forged = Order(agent_id=r.choice(others), market_id=m.market_id, is_buy=r.random() < 0.5, kind=LIMIT_ORDER, volume=1,
+                       price=max(1, math.floor(m.get_market_price() / m.tick_size)) * m.tick_size)
+        own = [x for x in batch if isinstance(x, Order)] if r.random() < 0.7 else []
+        own.insert(r.randint(0, len(own)), forged)
+        return own
 
     def _probe_future(self, markets):
         """C06: a user program asking a market about the future must be refused (recorded in the market's history)."""
@@ -525,6 +546,8 @@ class ScriptMixin:
             px = max(1, lvl) * tick
             if r.random() < p["pOff"]:
                 px += tick / 2
+            if float(px).is_integer() and r.random() < p.get("pInt", 0.25):
+                px = int(px)            # an integral price handed over as a Python int is the same price
             o = Order(agent_id=self.agent_id, market_id=m.market_id, is_buy=r.random() < 0.5,
                       kind=MARKET_ORDER if mo else LIMIT_ORDER, volume=r.randint(1, p["maxVol"]),
                       price=None if mo else px, ttl=(r.choice(p["ttls"]) or None))
@@ -574,6 +597,9 @@ class ProbeEvent(EventABC):
         self.hook_specs = settings.get("hooks", [])
         self.bump = int(settings.get("bump", 0))
         self.dup = bool(settings.get("registerTwice", False))
+        # C17 "components must be distinct": at time t a user program tries to register a component of an index a second
+        # time ([index name, component name, t]); the attempt must be refused and must leave the index as it was
+        self.dupreg = settings.get("dupRegister")
 
     def hook_registration(self):
         hooks = []
@@ -587,6 +613,9 @@ class ProbeEvent(EventABC):
                                    time=None if times is None else list(times), **kw))
         if self.dup and hooks:
             hooks.append(hooks[0])
+        if self.dupreg:
+            hooks.append(EventHook(event=self, hook_type="market", is_before=True, time=[int(self.dupreg[2])],
+                                   specific_instance=self.simulator.name2market[self.dupreg[0]]))
         return hooks
 
     def _h(self, typ, before, **kw):
@@ -621,6 +650,13 @@ class ProbeEvent(EventABC):
 
     def hooked_before_step_for_market(self, simulator, market):
         self._h("market", True, m=int(market.market_id), t=int(market.get_time()))
+        if self.dupreg and market.name == self.dupreg[0] and int(market.get_time()) == int(self.dupreg[2]):
+            refused = False
+            try:
+                market._add_market(simulator.name2market[self.dupreg[1]])
+            except ValueError:
+                refused = True
+            REC.emit("dupreg", m=int(market.market_id), refused=refused)
 
     def hooked_after_step_for_market(self, simulator, market):
         self._h("market", False, m=int(market.market_id), t=int(market.get_time()))
@@ -651,7 +687,15 @@ class ScriptRandom(random.Random):
     def sample(self, population, k, **kw):
         if self.active and self.forced and self.forced.get("sample"):
             perm = self.forced["sample"].pop(0)
-            res = [population[i] for i in perm]
+            if sorted(perm) != list(range(len(population))) or k != len(population):
+                # the code under test asks for a draw the replayed behaviour does not contain (it has left the schedule TLC
+                # chose): the rest of the run is unforced; the replay reports the state mismatch and the trace
+                # specifications judge the recorded run as they judge any other
+                self.forced = None
+                REC.emit("offschedule", n=len(population), kk=int(k))
+                res = super().sample(population, k, **kw)
+            else:
+                res = [population[i] for i in perm]
         else:
             res = super().sample(population, k, **kw)
         if self.active:
